@@ -77,7 +77,7 @@ impl QueuingMetricSinkBuilder {
             }
         }));
 
-        spawn_worker_in_thread(worker.clone());
+        spawn_worker_in_thread(worker.core.clone());
 
         QueuingMetricSink { worker, sink }
     }
@@ -114,8 +114,9 @@ impl QueuingMetricSinkBuilder {
 /// The thread used for network operations (actually sending the metrics
 /// using the wrapped sink) is created and started when the `QueuingMetricSink`
 /// is created. The dequeuing of metrics is stopped and the thread stopped
-/// when `QueuingMetricSink` instance is destroyed (when `.drop()` is
-/// called).
+/// when the last clone of the `QueuingMetricSink` instance is destroyed
+/// (when `.drop()` is called), after everything already queued has been
+/// passed to the wrapped sink.
 ///
 /// This sink may be created with either a bounded or unbounded queue
 /// connecting the sink to the thread performing network operations. When an
@@ -246,19 +247,19 @@ impl QueuingMetricSink {
     /// has panicked and needed to be restarted. In typical use this should always
     /// be `0` but may be `> 0` for buggy `MetricSink` implementations.
     pub fn panics(&self) -> u64 {
-        self.worker.stats.panics()
+        self.worker.core.stats.panics()
     }
 
     /// Return the number of currently queued metrics. Note that due to the way
     /// this number is computed (submitted metrics - processed metrics), it is
     /// necessarily approximate.
     pub fn queued(&self) -> u64 {
-        self.worker.stats.queued()
+        self.worker.core.stats.queued()
     }
 
     /// Return the number of metrics successfully submitted to this sink.
     pub fn submitted(&self) -> u64 {
-        self.worker.stats.submitted()
+        self.worker.core.stats.submitted()
     }
 
     /// Return the number of metrics removed from the queue to be processed by
@@ -266,7 +267,7 @@ impl QueuingMetricSink {
     /// been successfully sent to a backend, only that it has been passed to
     /// the wrapped sink.
     pub fn drained(&self) -> u64 {
-        self.worker.stats.drained()
+        self.worker.core.stats.drained()
     }
 }
 
@@ -285,16 +286,6 @@ impl MetricSink for QueuingMetricSink {
 
     fn stats(&self) -> SinkStats {
         self.sink.stats()
-    }
-}
-
-impl Drop for QueuingMetricSink {
-    /// Send the worker a signal to stop processing metrics.
-    ///
-    /// Note that this destructor only sends the worker thread a signal to
-    /// stop, it doesn't wait for it to stop.
-    fn drop(&mut self) {
-        self.worker.stop();
     }
 }
 
@@ -360,7 +351,7 @@ impl WorkerStats {
 /// This function uses a `Sentinel` struct to make sure that any panics from
 /// running the worker result in another thread being spawned to start running
 /// the worker again.
-fn spawn_worker_in_thread(worker: Arc<Worker>) -> thread::JoinHandle<()> {
+fn spawn_worker_in_thread(worker: Arc<WorkerCore>) -> thread::JoinHandle<()> {
     thread::spawn(move || {
         let mut sentinel = Sentinel::new(&worker);
         worker.run();
@@ -376,12 +367,12 @@ fn spawn_worker_in_thread(worker: Arc<Worker>) -> thread::JoinHandle<()> {
 /// worker completes (which won't happen if the worker panics).
 #[derive(Debug)]
 struct Sentinel<'a> {
-    worker: &'a Arc<Worker>,
+    worker: &'a Arc<WorkerCore>,
     active: bool,
 }
 
 impl<'a> Sentinel<'a> {
-    fn new(worker: &'a Arc<Worker>) -> Sentinel<'a> {
+    fn new(worker: &'a Arc<WorkerCore>) -> Sentinel<'a> {
         Sentinel { worker, active: true }
     }
 
@@ -410,10 +401,10 @@ impl<'a> Drop for Sentinel<'a> {
 /// `.stop_and_wait()`, and `.is_stopped()` methods are meant to be called
 /// from the main thread (thread A).
 ///
-/// This worker is stopped by receiving a "poison pill" message in the
-/// channel that it is consuming messages from. Thus, calls to `.submit()`,
-/// consuming messages in '.run()`, and `.stop()` typically involve no
-/// locking.
+/// This worker is stopped by disconnecting the channel that it is
+/// consuming messages from (dropping the `Worker`) or by receiving a
+/// "poison pill" message in it. Thus, calls to `.submit()`, consuming
+/// messages in '.run()`, and `.stop()` typically involve no locking.
 ///
 /// However, in order to enable easier testing, after it stops receiving
 /// messages the `.run()` method will use an atomic "stopped" flag to
@@ -424,9 +415,22 @@ impl<'a> Drop for Sentinel<'a> {
 /// worry about this, just call `.submit()`, `.run()`, and `.stop()`.
 /// But, if you're wondering why the stopped flag and methods to wait
 /// for it or inspect it even exist: testing is the reason.
+///
+/// The sending half of the channel lives here, in the part of the worker
+/// that is owned by the `QueuingMetricSink` handles only. The thread
+/// consuming the channel owns just the `WorkerCore`. This way the channel
+/// is disconnected when the last handle goes away and `.run()` returns
+/// after draining whatever is still queued, no matter how many handles
+/// there have been or how full the queue is at that point.
 struct Worker {
-    task: Box<dyn Fn(String) + Sync + Send + RefUnwindSafe + 'static>,
+    core: Arc<WorkerCore>,
     sender: Sender<Option<String>>,
+}
+
+/// The consuming side of a `Worker`: everything the thread calling
+/// `.run()` needs, and nothing that would keep the channel connected.
+struct WorkerCore {
+    task: Box<dyn Fn(String) + Sync + Send + RefUnwindSafe + 'static>,
     receiver: Receiver<Option<String>>,
     stopped: AtomicBool,
     stats: WorkerStats,
@@ -439,11 +443,13 @@ impl Worker {
     {
         let (tx, rx) = Self::get_channels(capacity);
         Worker {
-            task: Box::new(task),
+            core: Arc::new(WorkerCore {
+                task: Box::new(task),
+                receiver: rx,
+                stopped: AtomicBool::new(false),
+                stats: WorkerStats::new(),
+            }),
             sender: tx,
-            receiver: rx,
-            stopped: AtomicBool::new(false),
-            stats: WorkerStats::new(),
         }
     }
 
@@ -458,12 +464,52 @@ impl Worker {
     fn submit(&self, v: String) -> Result<(), TrySendError<Option<String>>> {
         let res = self.sender.try_send(Some(v));
         if res.is_ok() {
-            self.stats.incr_submitted();
+            self.core.stats.incr_submitted();
         }
 
         res
     }
 
+    #[cfg(test)]
+    fn run(&self) {
+        self.core.run();
+    }
+
+    // Send a `None` poison pill value to stop the run loop even though
+    // the channel is still connected. Only intended for unit testing.
+    #[cfg(test)]
+    fn stop(&self) {
+        let _ = self.sender.try_send(None);
+    }
+
+    // Stop reading events from the channel and wait for the "stopped" flag
+    // to be set. Note that this repeatedly yields the current thread and is
+    // only intended for unit testing.
+    #[cfg(test)]
+    fn stop_and_wait(&self) {
+        self.stop();
+
+        while !self.core.stopped.load(Ordering::Acquire) {
+            thread::yield_now();
+        }
+    }
+
+    // Is the channel used between threads empty, i.e. are all values processed?
+    #[cfg(test)]
+    fn is_empty(&self) -> bool {
+        self.core.receiver.is_empty()
+    }
+
+    // Has this worker stopped running?
+    #[cfg(test)]
+    fn is_stopped(&self) -> bool {
+        self.core.stopped.load(Ordering::Acquire)
+    }
+}
+
+impl WorkerCore {
+    // Process entries until the channel is disconnected and empty (all
+    // handles are gone) or a `None` poison pill is received.
     fn run(&self) {
         for opt in self.receiver.iter() {
             if let Some(v) = opt {
@@ -479,40 +525,17 @@ impl Worker {
         // This is only for the benefit of unit testing.
         self.stopped.store(true, Ordering::Release);
     }
-
-    fn stop(&self) {
-        // Send a `None` poison pill value to stop the run loop.
-        let _ = self.sender.try_send(None);
-    }
-
-    // Stop reading events from the channel and wait for the "stopped" flag
-    // to be set. Note that this repeatedly yields the current thread and is
-    // only intended for unit testing.
-    #[cfg(test)]
-    fn stop_and_wait(&self) {
-        self.stop();
-
-        while !self.stopped.load(Ordering::Acquire) {
-            thread::yield_now();
-        }
-    }
-
-    // Is the channel used between threads empty, i.e. are all values processed?
-    #[cfg(test)]
-    fn is_empty(&self) -> bool {
-        self.receiver.is_empty()
-    }
-
-    // Has this worker stopped running?
-    #[cfg(test)]
-    fn is_stopped(&self) -> bool {
-        self.stopped.load(Ordering::Acquire)
-    }
 }
 
 impl fmt::Debug for Worker {
     fn fmt(&self, f: &mut fmt::Formatter<'_>) -> fmt::Result {
         write!(f, "Worker {{ ... }}")
+    }
+}
+
+impl fmt::Debug for WorkerCore {
+    fn fmt(&self, f: &mut fmt::Formatter<'_>) -> fmt::Result {
+        write!(f, "WorkerCore {{ ... }}")
     }
 }
 
